@@ -239,6 +239,8 @@ def _parse_directive_options(
                     MystWarnings.DIRECTIVE_OPTION,
                 )
             )
+        if additional_options:
+            yaml_options = {**additional_options, **yaml_options}
         return _DirectiveOptions(content, yaml_options, yaml_errors, has_options_block)
 
     validation_errors: list[ParseWarnings] = []
@@ -247,33 +249,32 @@ def _parse_directive_options(
     if options_block is not None:
         try:
             _options, state = options_to_items(options_block)
-            options = dict(_options)
         except TokenizeError as err:
-            return _DirectiveOptions(
-                content,
-                options,
-                [
-                    ParseWarnings(
-                        f"Invalid options format: {err.problem}",
-                        line,
-                        MystWarnings.DIRECTIVE_OPTION,
-                    )
-                ],
-                has_options_block,
-            )
-        if state.has_comments:
+            # the block is dropped, but additional options are still applied below
             validation_errors.append(
                 ParseWarnings(
-                    "Directive options has # comments, which may not be supported in future versions.",
+                    f"Invalid options format: {err.problem}",
                     line,
-                    MystWarnings.DIRECTIVE_OPTION_COMMENTS,
+                    MystWarnings.DIRECTIVE_OPTION,
                 )
             )
+        else:
+            options = dict(_options)
+            if state.has_comments:
+                validation_errors.append(
+                    ParseWarnings(
+                        "Directive options has # comments, which may not be supported in future versions.",
+                        line,
+                        MystWarnings.DIRECTIVE_OPTION_COMMENTS,
+                    )
+                )
 
     if issubclass(directive_class, TestDirective):
         # technically this directive spec only accepts one option ('option')
         # but since its for testing only we accept all options
-        return _DirectiveOptions(content, options, [], has_options_block)
+        return _DirectiveOptions(
+            content, options, validation_errors, has_options_block
+        )
 
     if additional_options:
         # The options block takes priority over additional options
